@@ -212,6 +212,31 @@ func driveMSM(c *ctx) {
 	for i := 0; i < c.scale(6, 100); i++ {
 		us = append(us, randBig(r, bigN))
 	}
+	// u2 (and the single scalar of a one-term batch) steered to the corners of the variable-base multiply: extreme split halves,
+	// rounding-bit flips, limb carries in the rounded quotients
+	for i, u2 := range steeredScalars(r, 0) {
+		if !c.thorough() && i%2 != int(c.seed%2) {
+			continue
+		}
+		p := clonePt(R1)
+		v := rep(R2, big.NewInt(19))
+		u1 := randBig(r, bigN)
+		v.DoubleScalarMultBasepointVartime(scFrom(u1), scFrom(u2), p)
+		c.E("dsm", "alias", "none", "u1", h32(u1), "u2", h32(u2), "p", ptRaw(R1), "out", ptRaw(v), "p_post", ptRaw(p))
+		for _, vt := range []bool{false, true} {
+			p = clonePt(R1)
+			v = rep(R2, big.NewInt(23))
+			name := "ct"
+			if vt {
+				name = "vartime"
+				v.MultiScalarMultVartime([]*secp256k1.Scalar{scFrom(u2)}, []*secp256k1.Point{p})
+			} else {
+				v.MultiScalarMult([]*secp256k1.Scalar{scFrom(u2)}, []*secp256k1.Point{p})
+			}
+			c.E("msm", "kind", name, "ss", []string{h32(u2)}, "ps", []string{ptRaw(R1)}, "recv", 0, "panic", false, "pre", "", "out", ptRaw(v),
+				"ps_post", []string{ptRaw(p)}, "ss_post", []string{h32(u2)})
+		}
+	}
 	for i, u1 := range us {
 		for j, u2 := range us {
 			for pi, p0 := range pts {
